@@ -9,16 +9,23 @@
 (* on the real classes, with a deep snapshot of every live object after    *)
 (* every step):                                                            *)
 (*   <<"C", k, v>>  construct a new object of kind k from parameter set v  *)
+(*                  (fresh argument objects)                                *)
+(*   <<"A", k, v>>  construct a new object of kind k from the argument     *)
+(*                  objects the user keeps for (k, v) and hands to every   *)
+(*                  "A" construction of that (k, v): the same lists,       *)
+(*                  dictionaries, arrays and observable instances          *)
 (*   <<"D", i, 0>>  serialise live object i and decode the document into   *)
 (*                  a NEW object (its value equals the one of i)           *)
-(*   <<"M", i, 0>>  mutate live object i through its documented mutator    *)
-(*                  (Results: store one more value; VirtualDevice:         *)
-(*                  change_rydberg_level)                                  *)
+(*   <<"M", i, 0>>  change live object i through itself (Results: store    *)
+(*                  one more value; VirtualDevice: change_rydberg_level;   *)
+(*                  configurations: update the mutable option values and   *)
+(*                  the observables the configuration hands out)           *)
 (*   <<"S", i, 0>>  serialise live object i and discard the document       *)
 (* Frame condition (the property): a step changes at most the object it    *)
-(* targets - C and D only append, S changes nothing, M changes object i    *)
-(* only.  The variable prev holds the heap before the last step so that    *)
-(* the frame condition is a state invariant.                               *)
+(* targets - C, A and D only append, S changes nothing, M changes object i *)
+(* only, also when i was built from the same argument objects as others.   *)
+(* The variable prev holds the heap before the last step so that the frame *)
+(* condition is a state invariant.                                         *)
 (***************************************************************************)
 EXTENDS Integers, Sequences, FiniteSets, TLC, Json
 
@@ -27,24 +34,25 @@ CONSTANTS Use,      \* set of kinds used in this run
           MaxMut    \* bound on mutations per object
 VARIABLES hist, live, prev
 
-(* kind -> [nv: number of parameter sets, ser: can be decoded, mut: has a mutator] *)
+(* kind -> [nv: number of parameter sets, ser: can be decoded, mut: can be changed through
+   itself, arg: "A" constructions are enumerated for it] *)
 KT == [
-  StateRepr      |-> [nv |-> 3, ser |-> TRUE,  mut |-> FALSE],
-  QutipState     |-> [nv |-> 3, ser |-> TRUE,  mut |-> FALSE],
-  OperatorRepr   |-> [nv |-> 2, ser |-> TRUE,  mut |-> FALSE],
-  QutipOperator  |-> [nv |-> 2, ser |-> TRUE,  mut |-> FALSE],
-  NoiseModel     |-> [nv |-> 3, ser |-> TRUE,  mut |-> FALSE],
-  SimConfig      |-> [nv |-> 2, ser |-> FALSE, mut |-> FALSE],
-  EmulationConfig|-> [nv |-> 2, ser |-> TRUE,  mut |-> FALSE],
-  QutipConfig    |-> [nv |-> 2, ser |-> TRUE,  mut |-> FALSE],
-  Observable     |-> [nv |-> 3, ser |-> FALSE, mut |-> FALSE],
-  Results        |-> [nv |-> 2, ser |-> TRUE,  mut |-> TRUE],
-  Register       |-> [nv |-> 2, ser |-> TRUE,  mut |-> FALSE],
-  Register3D     |-> [nv |-> 2, ser |-> TRUE,  mut |-> FALSE],
-  Layout         |-> [nv |-> 2, ser |-> TRUE,  mut |-> FALSE],
-  DetuningMap    |-> [nv |-> 2, ser |-> TRUE,  mut |-> FALSE],
-  Device         |-> [nv |-> 2, ser |-> TRUE,  mut |-> FALSE],
-  VirtualDevice  |-> [nv |-> 2, ser |-> TRUE,  mut |-> TRUE]
+  StateRepr      |-> [nv |-> 3, ser |-> TRUE, mut |-> FALSE, arg |-> FALSE],
+  QutipState     |-> [nv |-> 3, ser |-> TRUE, mut |-> FALSE, arg |-> FALSE],
+  OperatorRepr   |-> [nv |-> 2, ser |-> TRUE, mut |-> FALSE, arg |-> FALSE],
+  QutipOperator  |-> [nv |-> 2, ser |-> TRUE, mut |-> FALSE, arg |-> FALSE],
+  NoiseModel     |-> [nv |-> 3, ser |-> TRUE, mut |-> FALSE, arg |-> FALSE],
+  SimConfig      |-> [nv |-> 2, ser |-> FALSE, mut |-> FALSE, arg |-> FALSE],
+  EmulationConfig|-> [nv |-> 2, ser |-> TRUE, mut |-> TRUE, arg |-> TRUE],
+  QutipConfig    |-> [nv |-> 2, ser |-> TRUE, mut |-> TRUE, arg |-> TRUE],
+  Observable     |-> [nv |-> 3, ser |-> FALSE, mut |-> FALSE, arg |-> FALSE],
+  Results        |-> [nv |-> 2, ser |-> TRUE, mut |-> TRUE, arg |-> FALSE],
+  Register       |-> [nv |-> 2, ser |-> TRUE, mut |-> FALSE, arg |-> FALSE],
+  Register3D     |-> [nv |-> 2, ser |-> TRUE, mut |-> FALSE, arg |-> FALSE],
+  Layout         |-> [nv |-> 2, ser |-> TRUE, mut |-> FALSE, arg |-> FALSE],
+  DetuningMap    |-> [nv |-> 2, ser |-> TRUE, mut |-> FALSE, arg |-> FALSE],
+  Device         |-> [nv |-> 2, ser |-> TRUE, mut |-> FALSE, arg |-> FALSE],
+  VirtualDevice  |-> [nv |-> 2, ser |-> TRUE, mut |-> TRUE, arg |-> TRUE]
 ]
 ASSUME Use \subseteq DOMAIN KT
 
@@ -52,6 +60,10 @@ Obj(k, v, m) == [k |-> k, v |-> v, m |-> m]
 
 Construct(k, v) ==
   /\ hist' = Append(hist, <<"C", k, v>>)
+  /\ live' = Append(live, Obj(k, v, 0))
+ConstructShared(k, v) ==
+  /\ KT[k].arg
+  /\ hist' = Append(hist, <<"A", k, v>>)
   /\ live' = Append(live, Obj(k, v, 0))
 Decode(i) ==
   /\ KT[live[i].k].ser
@@ -70,7 +82,7 @@ Init == hist = <<>> /\ live = <<>> /\ prev = <<>>
 Next ==
   /\ Len(hist) < Depth
   /\ prev' = live
-  /\ \/ \E k \in Use : \E v \in 1..KT[k].nv : Construct(k, v)
+  /\ \/ \E k \in Use : \E v \in 1..KT[k].nv : Construct(k, v) \/ ConstructShared(k, v)
      \/ \E i \in 1..Len(live) : Decode(i) \/ Mutate(i) \/ Serialise(i)
 Spec == Init /\ [][Next]_<<hist, live, prev>>
 
